@@ -376,6 +376,11 @@ def run_case(case, fail, stats):
     elif kind == "mgrpickle":
         env = Env(case["vals"])
         del env.box["o"]           # plain picklable containers only
+        if case.get("refattr"):
+            # the container registered with Manager.refattr(): attribute syntax on the container ref means item access
+            env.m = xdeps.Manager()
+            env.r = env.m.refattr(env.box, "r")
+            env.f = env.m.ref(dict(FUNCS), "f")
         outs = []
         nested = bool(case.get("nested"))
         if nested:
@@ -419,6 +424,8 @@ def run_case(case, fail, stats):
                 value = val_py(vj)
             if isinstance(name, list):
                 target_set(e.r, name[1], value)
+            elif case.get("refattr") and isinstance(name, str) and name.isidentifier():
+                setattr(e.r, name, value)           # attribute syntax: only an ObjectAttrRef turns it into an item
             else:
                 e.r[name] = value
 
@@ -895,6 +902,8 @@ def cases_c12(rng, n):
         yield {"kind": "pickle", "vals": vals, "term": t}
         if t[0] != "attr":
             yield {"kind": "mgrpickle", "vals": vals, "defs": [t], "follow": [["v0", {"float": (7.75).hex()}], ["v1", {"int": 3}]]}
+            yield {"kind": "mgrpickle", "vals": vals, "defs": [t], "refattr": True,
+                   "follow": [["v0", {"float": (7.75).hex()}], ["v1", {"int": 3}]]}
     for i in range(n):
         vals = gen_vals(rng, ["int", "float"])
         if rng.random() < 0.5:
@@ -916,7 +925,10 @@ def cases_c12(rng, n):
                     else:
                         follow.append([tgt, {"term": gen_term(rng, rng.randint(1, 2))}])         # ... or by another definition
             if defs:
-                yield {"kind": "mgrpickle", "vals": vals, "defs": defs, "nested": nested, "follow": follow}
+                c = {"kind": "mgrpickle", "vals": vals, "defs": defs, "nested": nested, "follow": follow}
+                if rng.random() < 0.3:
+                    c["refattr"] = True
+                yield c
 
 
 KEYS = ["a", "b", "ab", "a'b", 'a"b', "a]", "[a", "a.b", "a['b']", "c['a']", "é", "a b", "\\", "a\\'", "0", "1", "-1", "1.5", "",
